@@ -254,7 +254,7 @@ func NewEpoch(epochNum int) {
 		}
 
 		acc := getAccount(ctx, addr)
-		if acc.Until == 0 {
+		if len(acc.Parent) == 0 { // not a lock account
 			continue
 		}
 
